@@ -1542,8 +1542,15 @@ def oneline_chunk(cases):
 def oneline_section(tier, seed):
     rng = random.Random(seed * 41 + 23)
     words = ['hello world', 'a b c d e f g h', 'some longer text here', 'x' * 12, "it's a \"quoted\" one", 'path/like/string/value', b'bytes with spaces ok']
+    # strings whose printed width is not len + 2: either kind of quote in any proportion, backslashes, escapes, non-ASCII, bytes
+    alpha = ['a', 'b', ' ', "'", "'", '"', '\\', '\xe9', '\u4e2d', '\t', 'c d']
+    for _ in range(60 if tier == 'quick' else 600):
+        t = ''.join(rng.choice(alpha) for _ in range(rng.choice([8, 11, 14, 20, 30])))
+        words.append(t)
+        if rng.random() < 0.3:
+            words.append(t.encode('utf-8'))
     vals = []
-    for _ in range(600 if tier == 'quick' else 6000):
+    for _ in range(900 if tier == 'quick' else 9000):
         v = rng.choice(words + [1, 2.5, None, (1, 2), 'ab'])
         for _ in range(rng.choice([0, 1, 2, 3, 4, 6])):       # nest it: the deeper, the larger the indentation of the flat bracket
             k = rng.random()
